@@ -36,15 +36,24 @@ impl<'de, 'a> de::Deserializer<'de> for D<'a> {
             Sx::NewtypeStruct(x) => v.visit_newtype_struct(D(x)),
             Sx::Seq(_, xs) | Sx::Tuple(xs) | Sx::TupleStruct(xs) => v.visit_seq(SeqA(xs.iter())),
             Sx::Map(_, kvs) | Sx::Struct(kvs) => v.visit_map(MapA { it: kvs.iter(), val: None }),
-            Sx::UnitVariant(_) | Sx::NewtypeVariant(..) | Sx::TupleVariant(..) | Sx::StructVariant(..) =>
-                v.visit_enum(EnumA(self.0))
+            // a variant asked for with `deserialize_any` (it sits behind serde's Content buffer):
+            // presented the way self-describing formats do, as a string or a one-entry map
+            Sx::UnitVariant(n) => v.visit_string(n.clone()),
+            Sx::NewtypeVariant(..) | Sx::TupleVariant(..) | Sx::StructVariant(..) => v.visit_map(OneA { v: self.0, state: 0 })
+        }
+    }
+
+    fn deserialize_enum<V: Visitor<'de>>(self, _: &'static str, _: &'static [&'static str], v: V) -> Result<V::Value, TErr> {
+        match self.0 {
+            Sx::UnitVariant(_) | Sx::NewtypeVariant(..) | Sx::TupleVariant(..) | Sx::StructVariant(..) => v.visit_enum(EnumA(self.0)),
+            _ => Err(TErr("expected a variant".into()))
         }
     }
 
     forward_to_deserialize_any! {
         bool i8 i16 i32 i64 i128 u8 u16 u32 u64 u128 f32 f64 char str string
         bytes byte_buf option unit unit_struct newtype_struct seq tuple
-        tuple_struct map struct enum identifier ignored_any
+        tuple_struct map struct identifier ignored_any
     }
 
     fn is_human_readable(&self) -> bool { false }
@@ -75,6 +84,54 @@ impl<'de, 'a> de::MapAccess<'de> for MapA<'a> {
     fn next_value_seed<V: DeserializeSeed<'de>>(&mut self, seed: V) -> Result<V::Value, TErr> {
         let v = self.val.take().ok_or_else(|| TErr("value before key".into()))?;
         seed.deserialize(D(v))
+    }
+}
+
+/// the content of a non-unit variant, as a deserializer
+struct VarContent<'a>(&'a Sx);
+
+impl<'de, 'a> de::Deserializer<'de> for VarContent<'a> {
+    type Error = TErr;
+    fn deserialize_any<V: Visitor<'de>>(self, v: V) -> Result<V::Value, TErr> {
+        match self.0 {
+            Sx::NewtypeVariant(_, x) => D(x).deserialize_any(v),
+            Sx::TupleVariant(_, xs) => v.visit_seq(SeqA(xs.iter())),
+            Sx::StructVariant(_, kvs) => v.visit_map(MapA { it: kvs.iter(), val: None }),
+            _ => Err(TErr("not a variant with content".into()))
+        }
+    }
+    fn deserialize_option<V: Visitor<'de>>(self, v: V) -> Result<V::Value, TErr> {
+        match self.0 { Sx::NewtypeVariant(_, x) => D(x).deserialize_option(v), _ => self.deserialize_any(v) }
+    }
+    fn deserialize_enum<V: Visitor<'de>>(self, a: &'static str, b: &'static [&'static str], v: V) -> Result<V::Value, TErr> {
+        match self.0 { Sx::NewtypeVariant(_, x) => D(x).deserialize_enum(a, b, v), _ => self.deserialize_any(v) }
+    }
+    forward_to_deserialize_any! {
+        bool i8 i16 i32 i64 i128 u8 u16 u32 u64 u128 f32 f64 char str string
+        bytes byte_buf unit unit_struct newtype_struct seq tuple
+        tuple_struct map struct identifier ignored_any
+    }
+    fn is_human_readable(&self) -> bool { false }
+}
+
+/// one-entry map `{variant name: content}`
+struct OneA<'a> { v: &'a Sx, state: u8 }
+
+impl<'de, 'a> de::MapAccess<'de> for OneA<'a> {
+    type Error = TErr;
+    fn next_key_seed<K: DeserializeSeed<'de>>(&mut self, seed: K) -> Result<Option<K::Value>, TErr> {
+        if self.state != 0 { return Ok(None) }
+        self.state = 1;
+        let name: &str = match self.v {
+            Sx::NewtypeVariant(n, _) | Sx::TupleVariant(n, _) | Sx::StructVariant(n, _) => n,
+            _ => return Err(TErr("not a variant".into()))
+        };
+        let d: de::value::StringDeserializer<TErr> = name.to_string().into_deserializer();
+        seed.deserialize(d).map(Some)
+    }
+    fn next_value_seed<V: DeserializeSeed<'de>>(&mut self, seed: V) -> Result<V::Value, TErr> {
+        self.state = 2;
+        seed.deserialize(VarContent(self.v))
     }
 }
 
